@@ -38,8 +38,10 @@ namespace opensmt {
 
     bool static inline isIntString(char const *str) {
         if (str[0] == '\0') return false;
+        int const first = str[0] == '-' ? 1 : 0;
+        if (str[first] == '\0') return false; // A sign alone is not an integer
 
-        for (int i = str[0] == '-' ? 1 : 0; str[i] != '\0'; i++) {
+        for (int i = first; str[i] != '\0'; i++) {
             if (not isDigit(str[i])) {
                 return false;
             }
